@@ -304,7 +304,7 @@ func (h *harness) builderEdge(c *Chain, path []Rec, st *Post, e AccEdge, withRem
 	f.updateHeld(rd)
 	post := f.project(f.l.AclState())
 	// the revoke+rotate batch has no single-content counterpart in the model's list: compare only single ones
-	if ct.K != "InviteRevoke" && !withRemoval {
+	if ct.K != "InviteRevoke" && !withRemoval && e.Post.Perm != nil {
 		if d := diffPost(w.meta.AccSeq, w.meta.InvIds, &e.Post, post); d != "" {
 			h.rep.DriftNote("[%s] state after the builder-made %s (path %v) differs from the model: %s", h.cfg, e.Rec, path, d)
 		}
